@@ -488,6 +488,9 @@ func (e *Engine) conv(dst, src types.Type, xv Value, pos token.Pos) Value {
 					e.intRangeCheck(x, dst, pos)
 					return x
 				}
+				if e.opt.IntMode && db.Kind() == types.Int {
+					return toInt(x, src)
+				}
 				dw := typeWidth(dst)
 				switch {
 				case dw == x.W:
